@@ -41,10 +41,8 @@ func checkHash(c *ctx, hc hashCase) uint32 {
 }
 
 func runHash(c *ctx, r *vlib.RNG) []string {
-	n, kcap := 3000, 900
-	if c.a.Thorough() {
-		n, kcap = 300000, 4000
-	}
+	b := c.budget()
+	n, kcap := b.hashN, b.hashK
 	var cases []string
 	for _, v := range hashVectors {
 		hc := hashCase{"hash", hx(v.data), v.seed}
@@ -263,19 +261,17 @@ func runBloom(c *ctx, r *vlib.RNG) []string {
 	add := func(bpk, n int, k bool) {
 		jobs = append(jobs, bloomJob{bloomCase{Kind: "bloom", Seed: r.Uint64(), Bpk: bpk, N: n}, k})
 	}
-	reps := 1
-	big := 2500
-	if c.a.Thorough() {
-		reps, big = 12, 10000
-	}
+	bud := c.budget()
+	reps, big := bud.bloomReps, bud.bloomBig
 	for bpk := 1; bpk <= 64; bpk++ { // exhaustive over bits-per-key
 		for rep := 0; rep < reps; rep++ {
-			add(bpk, 0, rep == 0 && bpk%16 == 1)
-			add(bpk, 1, rep == 0)
+			k := rep < bud.bloomKReps
+			add(bpk, 0, k && bpk%16 == 1)
+			add(bpk, 1, k)
 			add(bpk, 2, false)
-			add(bpk, r.Range(3, 9), rep == 0 && bpk%2 == 0)
-			add(bpk, r.Range(10, 60), rep == 0 && bpk%2 == 1)
-			add(bpk, r.Range(61, 160), rep == 0 && bpk%8 == 0)
+			add(bpk, r.Range(3, 9), k)
+			add(bpk, r.Range(10, 60), k)
+			add(bpk, r.Range(61, 160), k && bpk%4 == 0)
 			add(bpk, r.Range(161, 1000), false)
 			add(bpk, r.Range(1001, big), false)
 		}
@@ -285,20 +281,21 @@ func runBloom(c *ctx, r *vlib.RNG) []string {
 	}
 	// outside the documented range: 0, negative, k wrapping through uint8, int overflow in f*69
 	for _, bpk := range []int{0, -1, -5, -100, 65, 100, 145, 371, 372, 400, 1000, 1 << 32, 1<<32 + 10, 1 << 62, -(1 << 62), 1<<63 - 1, -(1 << 63)} {
-		add(bpk, 0, true)
+		wk := bud.bloomKReps > 0
+		add(bpk, 0, wk)
 		if bpk > 0 && bpk <= 1000 {
-			add(bpk, r.Range(1, 40), true)
+			add(bpk, r.Range(1, 40), wk)
 			add(bpk, r.Range(41, 300), false)
 		}
 		if bpk >= 1<<32 && bpk < 1<<33 {
-			add(bpk, r.Range(1, 30), true)
+			add(bpk, r.Range(1, 30), wk)
 		}
 	}
 	for n := 1; n <= 7; n++ { // the bit count wraps below 8: divide by zero in Generate
-		add(-1, n, true)
+		add(-1, n, bud.bloomKReps > 0)
 	}
-	add(-5, 1, true)
-	add(-7, 1, true)
+	add(-5, 1, bud.bloomKReps > 0)
+	add(-7, 1, bud.bloomKReps > 0)
 	out := make([][]string, len(jobs))
 	var wg sync.WaitGroup
 	sem := make(chan struct{}, 8)
@@ -322,10 +319,7 @@ func runBloom(c *ctx, r *vlib.RNG) []string {
 // ---------------------------------------------------------------- Contains on arbitrary filter bytes
 
 func runHas(c *ctx, r *vlib.RNG) []string {
-	n := 400
-	if c.a.Thorough() {
-		n = 4000
-	}
+	n := c.budget().hasN
 	f := filter.NewBloomFilter(10)
 	var cases []string
 	for i := 0; i < n; i++ {
@@ -355,7 +349,9 @@ func runHas(c *ctx, r *vlib.RNG) []string {
 		}
 		c.res.Count(fmt.Sprintf("has_answer_%v", ans), 1)
 		c.res.Eval("has/"+hx(flt)+"/"+hx(key), len(flt) >= 2)
-		cases = append(cases, fmt.Sprintf("CHas %s %s %s", vlib.CoqHex(flt), vlib.CoqHex(key), vlib.CoqBool(ans)))
+		if len(cases) < 400 && c.a.Extra != "search" {
+			cases = append(cases, fmt.Sprintf("CHas %s %s %s", vlib.CoqHex(flt), vlib.CoqHex(key), vlib.CoqBool(ans)))
+		}
 	}
 	return cases
 }
